@@ -158,26 +158,39 @@ def run(ctx):
         want = ref_unpack(b.contiguous(), bits)
         res = {}
         ext._lib = proxy
+
+        def call(route, f):
+            # every route is defined on every byte tensor: an exception is a violation, not a harness problem
+            try:
+                res[route] = f()
+            except Exception as e:
+                ctx.violation(dict(kind="unpack_route_raises", route=route, bits=bits, exc=type(e).__name__),
+                              dict(desc=desc, msg=str(e)[:300]))
+
         ctx.count("calls:route_py")
-        res["py"] = torch.ops.quanto_py.unpack(b, bits)
-        res["ext"] = torch.ops.quanto_ext.unpack(b, bits)
+        call("py", lambda: torch.ops.quanto_py.unpack(b, bits))
+        call("ext", lambda: torch.ops.quanto_ext.unpack(b, bits))
         n0 = ctx.counters.get("calls:route_ext_sanitized", 0)
         ctx.count("calls:route_top")
-        res["top"] = torch.ops.quanto.unpack(b, bits)
+        call("top", lambda: torch.ops.quanto.unpack(b, bits))
         if ctx.counters.get("calls:route_ext_sanitized", 0) != n0 + 1:
             ctx.violation(dict(kind="router_did_not_use_extension"), dict(desc=desc))
         n0 = ctx.counters.get("calls:route_ext_sanitized", 0)
-        with qops.disable_extensions():
-            ctx.count("calls:route_disabled")
-            res["disabled"] = torch.ops.quanto.unpack(b, bits)
+        try:
+            with qops.disable_extensions():
+                ctx.count("calls:route_disabled")
+                call("disabled", lambda: torch.ops.quanto.unpack(b, bits))
+        except Exception as e:
+            ctx.violation(dict(kind="disable_extensions_raises", exc=type(e).__name__), dict(desc=desc, msg=str(e)[:300]))
         if ctx.counters.get("calls:route_ext_sanitized", 0) != n0:
             ctx.violation(dict(kind="router_ignores_disable_extensions"), dict(desc=desc))
         if qops._ext_enabled is not True:
             ctx.violation(dict(kind="extensions_left_disabled"), dict(desc=desc))
+            qops._ext_enabled = True
         if ctx.counters.get("cases", 0) % 5 == 0:
             ext._lib = failing
             try:
-                res["ext_failing"] = torch.ops.quanto.unpack(b, bits)
+                call("ext_failing", lambda: torch.ops.quanto.unpack(b, bits))
             finally:
                 ext._lib = proxy
         for r, got in res.items():
@@ -187,7 +200,7 @@ def run(ctx):
         for v in torch.unique(b).tolist():
             ctx.see("bytes_at_operator_boundary", int(v), cap=256)
 
-    def roundtrip(t, bits, desc):
+    def roundtrip_(t, bits, desc):
         rows = t.shape[0]
         tb = fp.plain_bytes(t)
         P = PackedTensor.pack(t, bits)
@@ -212,7 +225,17 @@ def run(ctx):
         ctx.see(f"residues_bits{bits}", rows % (8 // bits))
         return P, payload
 
+    def roundtrip(t, bits, desc):
+        # pack/unpack are defined for every uint8 tensor with values below 2**bits: an exception is a violation
+        try:
+            return roundtrip_(t, bits, desc)
+        except Exception as e:
+            ctx.violation(dict(kind="pack_or_unpack_raises", bits=bits, exc=type(e).__name__), dict(desc=desc, msg=str(e)[:300]))
+            return None, None
+
     def packed_ops(P, t, bits, desc):
+        if P is None:
+            return
         tc = t.contiguous()
         progs = {
             "add": lambda a: a + 1,
@@ -275,6 +298,8 @@ def run(ctx):
             desc = dict(kind="all_byte_combinations_via_pack", bits=bits, shape=list(digits.shape))
             if ctx.case(desc):
                 P, payload = roundtrip(digits, bits, desc)
+                if P is None:
+                    continue
                 if len(torch.unique(payload)) != 256:
                     ctx.inconclusive("pack of the digit matrix did not produce all 256 payload bytes")
                 routes(payload, bits, desc)
@@ -299,6 +324,8 @@ def run(ctx):
                     if not ctx.case(desc):
                         continue
                     P, payload = roundtrip(t, bits, desc)
+                    if P is None:
+                        continue
                     routes(payload, bits, desc)
                     if lead <= 12 or (lead % 7 == 0):
                         packed_ops(P, t, bits, desc)
